@@ -10,6 +10,15 @@ UNDECIDED_PATTERNS = (
 )
 
 
+# the only diagnostics that are failed proof obligations; anything else is a tool/subset limit => exit 2
+VERIFICATION_FAILURES = (
+    "postcondition not satisfied", "precondition not satisfied", "assertion failed", "invariant not satisfied",
+    "possible arithmetic underflow/overflow", "possible division by zero", "decreases not satisfied",
+    "possible bit shift underflow/overflow", "could not prove termination", "assertion failure",
+    "unable to prove", "cannot show invariant", "loop invariant", "failed to prove", "may panic",
+)
+
+
 def repo_reader(root):
     def rd(rel):
         p = os.path.join(root, rel)
@@ -107,16 +116,18 @@ def run_template(prop, template_path, repo_root=None, rlimit=30, timeout=600, ex
         where = item["sel"] if item else _enclosing_fn(lines, line)
         region = next((r for r in meta["regions"] if r["line_lo"] <= line <= r["line_hi"]), None)
         kind = _kind(msg)
-        if kind == "precondition" and sec:
-            # primary = failed requires clause (callee), secondary = call site
-            cl = sec[0]["line_start"]
-            citem = next((it for it in meta["items"] if it["line_lo"] <= cl <= it["line_hi"]), None)
-            where = (citem["sel"] if citem else _enclosing_fn(lines, cl)) + " -> " + where
+        if kind == "precondition":
+            # primary = call site; a secondary span inside this file names the failed `requires` clause
+            for sp in sec:
+                if os.path.basename(sp.get("file_name", "")) == os.path.basename(out_path) and sp.get("text"):
+                    t0 = sp["text"][0]
+                    snippet = snippet.split("(")[0][-40:] + " requires " + t0["text"][t0["highlight_start"] - 1:t0["highlight_end"] - 1].strip()
+                    break
         ob = f"{prop}/{name}/{where}/{kind}:{_norm(snippet)}"
         f = {"obligation": ob, "message": msg, "line": line, "kind": kind, "snippet": snippet, "rendered": d.get("rendered", ""),
              "in_extracted_item": bool(item), "region": region["kind"] if region else None}
-        if any(p in msg for p in UNDECIDED_PATTERNS) or d.get("code"):
-            f["tool_limit"] = True
+        if not any(p in msg.lower() for p in VERIFICATION_FAILURES) or d.get("code"):
+            f["tool_limit"] = True   # not a proof obligation: syntax/type/unsupported-construct/rlimit => undecided
         res["failures"].append(f)
     if not errors and vr.get("success") and rc == 0:
         res["ok"] = True
